@@ -10,6 +10,7 @@ def run(F, G, tier, seed):
     ownership.run_selfreg(chk, F)
     ownership.run_stable(chk, F)
     ownership.run_edge(chk, F)
+    ownership.run_endpoint_null(chk, F)
     instances.run(chk, F)
     instances.run_arity_sync(chk, F)
     return chk.finish(
